@@ -99,11 +99,19 @@ import concepts
 from rec_persist_worker import observe, digest, cached
 jobs = json.load(open(sys.argv[1]))
 out = []
+loaded = {}
+for j in jobs:          # load ALL pickles first: objects with equal labels from different tables are alive together
+    try:
+        with open(j['path'], 'rb') as f:
+            loaded[j['id']] = pickle.load(f)
+    except Exception as exc:
+        loaded[j['id']] = exc
 for j in jobs:
     r = {'id': j['id']}
     try:
-        with open(j['path'], 'rb') as f:
-            x = pickle.load(f)
+        x = loaded[j['id']]
+        if isinstance(x, Exception):
+            raise x
         fresh = concepts.Context(j['objects'], j['properties'], [tuple(b) for b in j['bools']])
         if j['what'] == 'ctx':
             r.update(out='ok', eq=bool(x == fresh) and not (x != fresh), cached=cached(x),
@@ -133,6 +141,7 @@ class Rec:
         self.b = 0
         self.child_jobs = []
         self._fresh = None
+        self.ring = []
 
     def ev(self, _n, **f):
         d = {'b': self.b, 'ev': _n}
@@ -217,10 +226,28 @@ class Rec:
                 f = dict(eq=bool(x._context == ctx), cached=False, obs=digest(observe(LatHolder(x))),
                          fresh=self.fresh_digest(ctx))
             out = 'ok'
+            if len(ctx.objects) * len(ctx.properties) <= 64:
+                self.ring.append((self.b, what, x, self.fresh_digest(ctx)))
         except Exception as exc:
             out = type(exc).__name__
         self.ev('p.pickle', what=what, where='inproc', h=h, out=out, concepts=self.nconcepts(ctx), **f)
         return out
+
+    def revisit(self):
+        """Observe again an object that was loaded several behaviours ago and is still alive (other contexts
+        with the same labels have been built / loaded since)."""
+        if len(self.ring) < 6:
+            return
+        b, what, x, fresh = self.ring.pop(0)
+        keep = self.b
+        self.b = b
+        try:
+            o = digest(observe(x if what != 'lat' else LatHolder(x)))
+            self.ev('p.pickle', what=what, where='revisited-later', h=1, out='ok', eq=True, cached=False,
+                    obs=o, fresh=fresh, concepts=-1)
+        except Exception as exc:
+            self.ev('p.pickle', what=what, where='revisited-later', h=1, out=type(exc).__name__, concepts=-1)
+        self.b = keep
 
     def nconcepts(self, ctx):
         try:
@@ -374,6 +401,11 @@ def behaviour(rec, table, b, rng, lv, tier, heavy):
     if heavy:
         rec.pickle_child('ctx', 1, ctx)
         rec.pickle_child('lat', 1, ctx)
+    # loaded-from-dict objects are kept alive and revisited later as well
+    if c7 is not None and n * m <= 64:
+        rec.ring.append((b, 'dict', c7, rec.fresh_digest(ctx)))
+    rec.revisit()
+    rec.revisit()
 
 
 def big_lattices(tier):
